@@ -10,7 +10,7 @@
 (* allocates"); stack allocations die when their function returns.               *)
 (* Observable behaviour: the sequence of arguments passed to the external        *)
 (* function $obs, and main's return value.                                       *)
-EXTENDS Bits, Naturals, Integers, Sequences, FiniteSets, TLC, Json, IOUtils
+EXTENDS Bits, FloatInt, Naturals, Integers, Sequences, FiniteSets, TLC, Json, IOUtils
 
 (* the modules under execution: one JSON record [funcs, data] per line, produced by  *)
 (* harness/ilprep.py from the IL the real compiler printed                            *)
@@ -56,7 +56,7 @@ Val(v) ==   \* IL value -> word (temporaries must be defined: checked by Defined
     [] v.t = "int"  -> v.v
     [] v.t = "glob" -> W(SymAddr(v.n))
 Defined(v) == (v.t = "tmp" => v.n \in DOMAIN tmp) /\ (v.t = "glob" => SymAddr(v.n) >= 0) /\ v.t # "flt"
-Norm(cls, w) == IF cls = "w" THEN TruncBits(w, 32) ELSE w        \* a w temporary holds 32 meaningful bits
+Norm(cls, w) == IF cls \in {"w", "s"} THEN TruncBits(w, 32) ELSE w        \* a w or s temporary holds 32 meaningful bits
 
 (* ---- memory access ---- *)
 Find(addr, n) ==     \* index of the live allocation containing [addr, addr+n), or 0
@@ -135,22 +135,67 @@ ExtRes(op, a) ==
     [] op = "extsh" -> SExtBits(a, 16) [] op = "extuh" -> TruncBits(a, 16)
     [] op = "extsb" -> SExtBits(a, 8)  [] op = "extub" -> TruncBits(a, 8)
 
-LoadOps == {"loadl", "loadw", "loadsw", "loaduw", "loadsh", "loaduh", "loadsb", "loadub"}
-LoadSize(op) == CASE op = "loadl" -> 8 [] op \in {"loadw", "loadsw", "loaduw"} -> 4 [] op \in {"loadsh", "loaduh"} -> 2 [] OTHER -> 1
+LoadOps == {"loadl", "loadw", "loadsw", "loaduw", "loadsh", "loaduh", "loadsb", "loadub", "loads", "loadd"}     \* loads/loadd move the IEEE image
+LoadSize(op) == CASE op \in {"loadl", "loadd"} -> 8 [] op \in {"loadw", "loadsw", "loaduw", "loads"} -> 4 [] op \in {"loadsh", "loaduh"} -> 2 [] OTHER -> 1
 LoadSigned(op) == op \in {"loadw", "loadsw", "loadsh", "loadsb"}
-StoreOps == {"storel", "storew", "storeh", "storeb"}
-StoreSize(op) == CASE op = "storel" -> 8 [] op = "storew" -> 4 [] op = "storeh" -> 2 [] OTHER -> 1
+StoreOps == {"storel", "storew", "storeh", "storeb", "stores", "stored"}
+StoreSize(op) == CASE op \in {"storel", "stored"} -> 8 [] op \in {"storew", "stores"} -> 4 [] op = "storeh" -> 2 [] OTHER -> 1
 AllocOps == {"alloc4", "alloc8", "alloc16"}
-FloatOps == {"stored", "stores", "loadd", "loads", "exts", "truncd", "stosi", "stoui", "dtosi", "dtoui", "swtof", "uwtof", "sltof", "ultof",
-             "ceqs", "cnes", "cles", "clts", "cges", "cgts", "ceqd", "cned", "cled", "cltd", "cged", "cgtd", "vastart", "vaarg"}
-
+VarargOps == {"vastart", "vaarg"}
+InInst == Running /\ ip >= 1 /\ ip <= NInst /\ fuel > 0
 ArgsDefined == \A k \in 1..Len(I.args) : Defined(I.args[k])
-(* floating point is outside this machine: an instruction of class s/d, with a floating constant operand, or a call passing  *)
-(* or returning a floating value stops the run as "unsupported" (Refine.tla then gives no verdict; il2c executes those)      *)
-IsFloatInst == \/ I.op \in FloatOps
-               \/ I.cls \in {"s", "d"}
-               \/ \E k \in 1..Len(I.args) : I.args[k].t = "flt"
-               \/ (I.op = "call" /\ \E k \in 1..Len(I.cargs) : I.cargs[k].cls \in {"s", "d"} \/ I.cargs[k].val.t = "flt")
+(* ---- floating point: temporaries and memory hold IEEE-754 images; arithmetic is done on the integral values they denote ---- *)
+(* (FloatInt.tla).  An operand that is not such a value (fraction, -0, denormal, infinity, NaN), an inexact result, or an     *)
+(* out-of-range conversion stops the run as "unsupported-float-or-vararg": Refine.tla then gives no verdict and the native  *)
+(* execution of the IL (il2c) alone decides.  Loads, stores, copies, phis, arguments and results just move the image.       *)
+FPrec(c) == IF c = "s" THEN 24 ELSE 53
+FDec(c, w) == IF c = "s" THEN DecS(w) ELSE DecD(w)
+FPack(c, f) == IF RepresentableP(f.mag, FPrec(c)) THEN [ok |-> TRUE, w |-> IF c = "s" THEN EncS(f) ELSE EncD(f)] ELSE [ok |-> FALSE]
+FBad == [ok |-> FALSE]
+FCmpOps == {"ceqs", "cnes", "cles", "clts", "cges", "cgts", "ceqd", "cned", "cled", "cltd", "cged", "cgtd"}
+FCmpCls(op) == IF op \in {"ceqs", "cnes", "cles", "clts", "cges", "cgts"} THEN "s" ELSE "d"
+FCmpTrue(op, x, y) ==
+  CASE op \in {"ceqs", "ceqd"} -> x = y [] op \in {"cnes", "cned"} -> x # y
+    [] op \in {"clts", "cltd"} -> FLt(x, y) [] op \in {"cgts", "cgtd"} -> FLt(y, x)
+    [] op \in {"cles", "cled"} -> ~FLt(y, x) [] op \in {"cges", "cged"} -> ~FLt(x, y)
+FToIntOps == {"stosi", "stoui", "dtosi", "dtoui"}
+FFromIntOps == {"swtof", "uwtof", "sltof", "ultof"}
+FConvOps == FToIntOps \cup FFromIntOps \cup {"exts", "truncd"}
+IsFloatCalc == \/ I.op \in FCmpOps \cup FConvOps
+               \/ (I.op \in {"add", "sub", "mul", "div", "neg"} /\ I.cls \in {"s", "d"})
+FCalc ==      \* [ok, w]
+  LET a == Val(I.args[1]) IN
+  CASE I.op \in {"add", "sub", "mul", "div"} -> (
+         LET x == FDec(I.cls, a)  y == FDec(I.cls, Val(I.args[2])) IN
+         IF ~x.ok \/ ~y.ok THEN FBad
+         ELSE LET z == CASE I.op = "add" -> FAdd(x.f, y.f) [] I.op = "sub" -> FAdd(x.f, FNeg(y.f))
+                         [] I.op = "mul" -> FMul(x.f, y.f) [] I.op = "div" -> FDiv(x.f, y.f) IN
+              IF ~z.ok THEN FBad ELSE FPack(I.cls, z.f))
+    [] I.op = "neg" -> (LET x == FDec(I.cls, a) IN IF ~x.ok \/ IsZero(x.f.mag) THEN FBad ELSE FPack(I.cls, FNeg(x.f)))     \* -0 is not modelled
+    [] I.op \in FCmpOps -> (
+         LET c == FCmpCls(I.op)  x == FDec(c, a)  y == FDec(c, Val(I.args[2])) IN
+         IF ~x.ok \/ ~y.ok THEN FBad ELSE [ok |-> TRUE, w |-> IF FCmpTrue(I.op, x.f, y.f) THEN One ELSE Zero])
+    [] I.op = "exts" -> (LET x == FDec("s", a) IN IF ~x.ok THEN FBad ELSE FPack("d", x.f))
+    [] I.op = "truncd" -> (LET x == FDec("d", a) IN IF ~x.ok THEN FBad ELSE FPack("s", x.f))
+    [] I.op \in FToIntOps -> (
+         LET x == FDec(IF I.op \in {"stosi", "stoui"} THEN "s" ELSE "d", a)  n == Bits(I.cls) IN
+         IF ~x.ok THEN FBad
+         ELSE IF I.op \in {"stosi", "dtosi"} THEN
+                (IF x.f.neg THEN (IF ULt(Shl(One, n - 1), x.f.mag) THEN FBad ELSE [ok |-> TRUE, w |-> Neg(x.f.mag)])
+                 ELSE IF ULt(x.f.mag, Shl(One, n - 1)) THEN [ok |-> TRUE, w |-> x.f.mag] ELSE FBad)
+         ELSE IF x.f.neg THEN FBad
+         ELSE IF n = 64 \/ ULt(x.f.mag, Shl(One, n)) THEN [ok |-> TRUE, w |-> x.f.mag] ELSE FBad)
+    [] I.op \in FFromIntOps -> (
+         LET v == CASE I.op = "swtof" -> SExtBits(a, 32) [] I.op = "uwtof" -> TruncBits(a, 32) [] OTHER -> a
+             f == IF I.op \in {"swtof", "sltof"} /\ SignBit(v) THEN FV(TRUE, Neg(v)) ELSE FV(FALSE, v) IN
+         FPack(I.cls, f))
+IFloat ==
+  /\ InInst /\ IsFloatCalc
+  /\ IF ~ArgsDefined THEN Stop("undef-temp")
+     ELSE LET r == FCalc IN
+          IF ~r.ok THEN Stop("unsupported-float-or-vararg")
+          ELSE SetTmp(I.res, I.cls, r.w) /\ Advance /\ Tick /\ UNCHANGED <<allocs, frames, qout, qstatus, qret>>
+IVararg == InInst /\ I.op \in VarargOps /\ Stop("unsupported-float-or-vararg")
 
 (* ---------------------------------------------------------------------------------- *)
 IPhi ==
@@ -160,16 +205,14 @@ IPhi ==
               S == {k \in 1..Len(p.srcs) : p.srcs[k].lbl = prev}
           IN IF S = {} THEN qstatus' = "phi-no-pred" /\ UNCHANGED tmp
              ELSE LET s == p.srcs[CHOOSE k \in S : TRUE].val
-                  IN IF p.cls \in {"s", "d"} \/ s.t = "flt" THEN qstatus' = "unsupported-float-or-vararg" /\ UNCHANGED tmp
-                     ELSE IF ~Defined(s) THEN qstatus' = "undef-temp" /\ UNCHANGED tmp
+                  IN IF ~Defined(s) THEN qstatus' = "undef-temp" /\ UNCHANGED tmp
                      ELSE SetTmp(p.res, p.cls, Val(s)) /\ UNCHANGED qstatus
   /\ ip' = 1 /\ Tick
   /\ UNCHANGED <<pid, fn, blk, prev, allocs, frames, qout, qret>>
 
-InInst == Running /\ ip >= 1 /\ ip <= NInst /\ fuel > 0
 
 IArith ==
-  /\ InInst /\ I.op \in BinOps \cup CmpOps \cup ExtOps \cup {"neg", "copy"} /\ ~IsFloatInst
+  /\ InInst /\ I.op \in BinOps \cup CmpOps \cup ExtOps \cup {"neg", "copy"} /\ ~IsFloatCalc
   /\ IF ~ArgsDefined THEN Stop("undef-temp")
      ELSE LET a == Val(I.args[1]) IN
        IF I.op \in BinOps THEN
@@ -184,7 +227,7 @@ IArith ==
             /\ Advance /\ Tick /\ UNCHANGED <<allocs, frames, qout, qstatus, qret>>
 
 ILoad ==
-  /\ InInst /\ I.op \in LoadOps /\ ~IsFloatInst
+  /\ InInst /\ I.op \in LoadOps
   /\ IF ~ArgsDefined THEN Stop("undef-temp")
      ELSE LET a == Val(I.args[1])  n == LoadSize(I.op) IN
        IF ~AddrOK(a, n) THEN Stop("memfault")
@@ -193,7 +236,7 @@ ILoad ==
             /\ Advance /\ Tick /\ UNCHANGED <<allocs, frames, qout, qstatus, qret>>
 
 IStore ==
-  /\ InInst /\ I.op \in StoreOps /\ ~IsFloatInst
+  /\ InInst /\ I.op \in StoreOps
   /\ IF ~ArgsDefined THEN Stop("undef-temp")
      ELSE LET v == Val(I.args[1])  a == Val(I.args[2])  n == StoreSize(I.op) IN
        IF ~AddrOK(a, n) THEN Stop("memfault")
@@ -213,7 +256,7 @@ IAlloc ==
 
 (* call of $obs: the observation point *)
 ICallObs ==
-  /\ InInst /\ I.op = "call" /\ I.callee.t = "glob" /\ I.callee.n = "obs" /\ ~IsFloatInst
+  /\ InInst /\ I.op = "call" /\ I.callee.t = "glob" /\ I.callee.n = "obs"
   /\ IF \E k \in 1..Len(I.cargs) : ~Defined(I.cargs[k].val) THEN Stop("undef-temp")
      ELSE /\ qout' = Append(qout, Norm(I.cargs[1].cls, Val(I.cargs[1].val)))
           /\ Advance /\ Tick /\ UNCHANGED <<tmp, allocs, frames, qstatus, qret>>
@@ -235,7 +278,7 @@ CopyArgs(k, al, vals, ok) ==
                           Append(vals, W(base)), ok)
 
 ICall ==
-  /\ InInst /\ I.op = "call" /\ ~(I.callee.t = "glob" /\ I.callee.n = "obs") /\ ~IsFloatInst
+  /\ InInst /\ I.op = "call" /\ ~(I.callee.t = "glob" /\ I.callee.n = "obs")
   /\ IF \E k \in 1..Len(I.cargs) : ~Defined(I.cargs[k].val) THEN Stop("undef-temp")
      ELSE IF CalleeIdx = 0 THEN Stop("unsupported-extern-call")
      ELSE LET g == Funcs[CalleeIdx] IN
@@ -251,7 +294,6 @@ ICall ==
                  /\ fn' = CalleeIdx /\ blk' = 1 /\ ip' = 0 /\ prev' = ""
                  /\ Tick /\ UNCHANGED <<pid, qout, qstatus, qret>>
 
-IFloat == InInst /\ IsFloatInst /\ Stop("unsupported-float-or-vararg")
 
 AtJump == Running /\ ip = NInst + 1 /\ fuel > 0
 J == B.jump
@@ -309,7 +351,7 @@ QInit ==
   /\ allocs = InitAllocs /\ frames = <<>> /\ qout = <<>> /\ qstatus = "run" /\ qret = Zero
   /\ fuel = 20000
 
-QNext == IPhi \/ IArith \/ ILoad \/ IStore \/ IAlloc \/ ICallObs \/ ICall \/ IFloat \/ IJmp \/ IJnz \/ IHlt \/ IRet \/ OutOfFuel
+QNext == IPhi \/ IArith \/ ILoad \/ IStore \/ IAlloc \/ ICallObs \/ ICall \/ IFloat \/ IVararg \/ IJmp \/ IJnz \/ IHlt \/ IRet \/ OutOfFuel
 
 QSpec == QInit /\ [][QNext]_qvars
 
